@@ -1007,3 +1007,58 @@ func hasNestedUnion(t *Type) bool {
 	})
 	return found
 }
+
+// AddLateUse appends to root two definitions: a fresh local type and a definition that passes it as a
+// type argument to a generic type of an imported package (a generic record is added to the first import
+// when it offers none). Returns the indexes (user, argument) in root.Defs; ok is false when root imports
+// nothing. Dependency-ordering code has to look *through* the imported reference to see this dependency.
+func AddLateUse(root *Package, choose func(label string, n int) int) (user, arg int, ok bool) {
+	if len(root.Imports) == 0 {
+		return 0, 0, false
+	}
+	imp := root.Imports[choose("lateImport", len(root.Imports))]
+	var generic *Def
+	for _, d := range imp.Defs {
+		if len(d.TypeParams) == 1 && (d.Kind == DRecord || d.Kind == DAlias) {
+			generic = d
+			break
+		}
+	}
+	if generic == nil {
+		if imp.Find("LateBox") != nil {
+			return 0, 0, false
+		}
+		generic = &Def{Kind: DRecord, Name: "LateBox", TypeParams: []string{"T"}, Fields: []Field{{Name: "boxed", Type: Param("T")}, {Name: "count", Type: Prim("uint32")}}}
+		imp.Defs = append(imp.Defs, generic)
+	}
+	if root.Find("LateArg") != nil || root.Find("LateUser") != nil {
+		return 0, 0, false
+	}
+	var argDef *Def
+	switch choose("lateArgKind", 3) {
+	case 0:
+		argDef = &Def{Kind: DRecord, Name: "LateArg", Fields: []Field{{Name: "a", Type: Prim("int32")}, {Name: "b", Type: Prim("float64")}}}
+	case 1:
+		argDef = &Def{Kind: DEnum, Name: "LateArg", ListValues: true, Values: []EnumVal{{Symbol: "first", Value: 0}, {Symbol: "second", Value: 1}}}
+	default:
+		argDef = &Def{Kind: DAlias, Name: "LateArg", Type: Vector(Prim("string"))}
+	}
+	ref := Ref(imp.Namespace, generic.Name, Ref(root.Namespace, "LateArg"))
+	var userDef *Def
+	switch choose("lateUserKind", 4) {
+	case 0:
+		userDef = &Def{Kind: DAlias, Name: "LateUser", Type: ref}
+	case 1:
+		userDef = &Def{Kind: DRecord, Name: "LateUser", Fields: []Field{{Name: "items", Type: Vector(ref)}}}
+	case 2:
+		userDef = &Def{Kind: DRecord, Name: "LateUser", Fields: []Field{{Name: "maybe", Type: Optional(ref)}, {Name: "n", Type: Prim("int32")}}}
+	default:
+		userDef = &Def{Kind: DRecord, Name: "LateUser", Fields: []Field{{Name: "held", Type: ref}}}
+	}
+	if root.NumFiles > 1 {
+		argDef.File = choose("lateArgFile", root.NumFiles)
+		userDef.File = choose("lateUserFile", root.NumFiles)
+	}
+	root.Defs = append(root.Defs, argDef, userDef)
+	return len(root.Defs) - 1, len(root.Defs) - 2, true
+}
